@@ -29,7 +29,7 @@ pub fn property() -> Property {
                 quick: 60_000,
                 thorough: 600_000,
                 single_shard: false, supplementary: false,
-                run: |cfg| run_part(cfg, (0..4900u16, proptest::collection::vec(0..4u8, 1..60), any::<u16>(), any::<u16>()), |(base, steps, at, win)| counter_case(*base, steps, *at, *win), check_counter),
+                run: |cfg| run_part(cfg, (0..4900u16, prop_oneof![3 => proptest::collection::vec(any::<u8>(), 1..60), 2 => proptest::collection::vec(any::<u8>(), 100..260)], any::<u16>(), any::<u16>(), 3..=9u8), |(base, steps, at, win, k)| counter_case(*base, steps, *at, *win, *k), check_counter),
                 replay: |v| replay_case::<CounterCase, _>(v, check_counter),
             },
             Part {
@@ -55,6 +55,14 @@ pub fn property() -> Property {
                 single_shard: false, supplementary: false,
                 run: |cfg| run_part(cfg, (prop_oneof![3 => gen::raw_synth_profiles(6, 7).prop_map(gen::RawPos::Synth), 1 => gen::raw_pos_endgames()], 4..=6u32), |(r, d)| forced_case(r, *d), check_forced),
                 replay: |v| replay_case::<ForcedCase, _>(v, check_forced),
+            },
+            Part {
+                name: "deep_repetition",
+                quick: 640,
+                thorough: 30_000,
+                single_shard: false, supplementary: false,
+                run: |cfg| run_part(cfg, (prop_oneof![2 => gen::raw_synth_profiles(0, 9).prop_map(gen::RawPos::Synth), 1 => gen::raw_pos_endgames(), 1 => gen::raw_pos(60)], 4..=6u32, any::<u16>()), |(r, d, x)| deep_rep_case(r, *d, *x), |c, ctx| crate::props::c08::check_deep(c, ctx)),
+                replay: |v| replay_case::<crate::props::c08::DeepCase, _>(v, |c, ctx| crate::props::c08::check_deep(c, ctx)),
             },
             Part {
                 name: "fifty",
@@ -86,17 +94,19 @@ fn mix(w: u8, b: u8, side: u8) -> u64 {
     (x.wrapping_add(0x9E37_79B9_7F4A_7C15)).wrapping_mul(0xBF58_476D_1CE4_E5B9) | 1
 }
 
-fn counter_case(base: u16, steps: &[u8], at: u16, win: u16) -> CounterCase {
+fn counter_case(base: u16, steps: &[u8], at: u16, win: u16, k: u8) -> CounterCase {
     // white and black alternately change their own symbol (never to the same symbol): like chess,
     // a position can recur after 4 plies at the earliest
     let (mut w, mut b) = (0u8, 0u8);
     let mut hashes = vec![mix(w, b, (base % 2) as u8)];
     for (i, s) in steps.iter().enumerate() {
         let ply = base as usize + i;
+        // (k symbols per side: with larger k positions recur rarely, so that in long histories "three times"
+        // often hinges on an occurrence more than 100 plies back)
         if ply % 2 == 0 {
-            w = (w + 1 + s % 2) % 3;
+            w = (w + 1 + s % (k - 1)) % k;
         } else {
-            b = (b + 1 + s % 2) % 3;
+            b = (b + 1 + s % (k - 1)) % k;
         }
         hashes.push(mix(w, b, ((ply + 1) % 2) as u8));
     }
@@ -109,7 +119,8 @@ fn counter_case(base: u16, steps: &[u8], at: u16, win: u16) -> CounterCase {
         2 => win / 4 % 8,
         _ => win / 4 % (at as u16 + 6),
     };
-    CounterCase { base: base.min(4999 - n as u16), hashes, at, window }
+    // (the property speaks of half-move clocks 0..150)
+    CounterCase { base: base.min(4999 - n as u16), hashes, at, window: window.min(150) }
 }
 
 pub fn check_counter(c: &CounterCase, ctx: &mut Ctx) -> Result<(), String> {
@@ -136,6 +147,13 @@ pub fn check_counter(c: &CounterCase, ctx: &mut Ctx) -> Result<(), String> {
     }
     if (got >= 3) != (n >= 3) {
         return Err(format!("count_repetitions(index {idx}, window {}) = {got} but the position recorded there occurs {n} time(s) inside the window (history of {} entries from index {})", c.window, c.hashes.len(), c.base));
+    }
+    if c.window > 100 {
+        ctx.class("window_gt_100");
+        let within_100 = (0..=50).filter(|i| { let j = c.at as i64 - 2 * i; j >= 0 && c.hashes[j as usize] == c.hashes[c.at] }).count();
+        if n >= 3 && within_100 < 3 {
+            ctx.class("third_occurrence_more_than_100_plies_back");
+        }
     }
     ctx.class(match n {
         0 | 1 => "occurs_once",
@@ -231,6 +249,9 @@ pub struct RepCase {
     pub prior: Option<(String, Vec<String>)>,
     #[serde(default)]
     pub new_game_after_prior: bool,
+    /// the GUI's usual order: `ucinewgame`, then `position`, then `go`
+    #[serde(default)]
+    pub newgame_first: bool,
 }
 
 fn shuffle_quad(p: &Pos, skip: u16) -> Option<[Mv; 4]> {
@@ -271,7 +292,7 @@ fn rep_case(r: &gen::RawPos, kind: u8, x: u16) -> RepCase {
     let mut p = gen::position(r, ClockDomain::Engine);
     p.ep = None;
     p.half = p.half.min(60);
-    let none = |p: &Pos| RepCase { fen: p.fen(), history: vec![], searchmove: String::new(), depth: 1, prior: None, new_game_after_prior: false };
+    let none = |p: &Pos| RepCase { fen: p.fen(), history: vec![], searchmove: String::new(), depth: 1, prior: None, new_game_after_prior: false, newgame_first: x % 16 >= 8 };
     let u = |m: Mv| m.uci();
     // kinds 8, 9: the first occurrence is CREATED by a capture or pawn move inside the move list
     if kind >= 8 {
@@ -283,7 +304,7 @@ fn rep_case(r: &gen::RawPos, kind: u8, x: u16) -> RepCase {
             }
             if let Some([a, b, a2, b2]) = shuffle_quad(&q, x) {
                 let (hist, sm): (Vec<Mv>, Mv) = if kind == 8 { (vec![x0, a, b, a2, b2, a, b, a2], b2) } else { (vec![x0, a, b, a2], b2) };
-                return RepCase { fen: p.fen(), history: hist.into_iter().map(u).collect(), searchmove: u(sm), depth: 1, prior: None, new_game_after_prior: false };
+                return RepCase { fen: p.fen(), history: hist.into_iter().map(u).collect(), searchmove: u(sm), depth: 1, prior: None, new_game_after_prior: false, newgame_first: x % 16 >= 8 };
             }
         }
         return none(&p);
@@ -298,7 +319,7 @@ fn rep_case(r: &gen::RawPos, kind: u8, x: u16) -> RepCase {
         let mut t = p.clone();
         t.half += 8;
         t.full += 4;
-        return RepCase { fen: t.fen(), history: vec![], searchmove: u(a), depth: 1 + (x % 2) as u32, prior: Some((p.fen(), prior_moves)), new_game_after_prior: kind == 7 };
+        return RepCase { fen: t.fen(), history: vec![], searchmove: u(a), depth: 1 + (x % 2) as u32, prior: Some((p.fen(), prior_moves)), new_game_after_prior: kind == 7, newgame_first: false };
     }
     let (history, searchmove, depth): (Vec<Mv>, Mv, u32) = match kind {
         // depth 1, the searched move completes the THIRD occurrence of the root-of-history position
@@ -310,7 +331,7 @@ fn rep_case(r: &gen::RawPos, kind: u8, x: u16) -> RepCase {
         // depth 2: only a second occurrence is reachable
         _ => (vec![a, b], a2, 2),
     };
-    RepCase { fen: p.fen(), history: history.into_iter().map(u).collect(), searchmove: u(searchmove), depth, prior: None, new_game_after_prior: false }
+    RepCase { fen: p.fen(), history: history.into_iter().map(u).collect(), searchmove: u(searchmove), depth, prior: None, new_game_after_prior: false, newgame_first: x % 16 >= 8 }
 }
 
 fn contempt() -> i32 {
@@ -397,6 +418,10 @@ pub fn check_engine_rep(c: &RepCase, ctx: &mut Ctx) -> Result<(), String> {
         }
         ctx.class("earlier_game_on_the_same_instance");
     }
+    if c.newgame_first {
+        s.new_game();
+        ctx.class("ucinewgame_then_position_then_go");
+    }
     let spec = GoSpec { depth: Some(c.depth as u64), searchmoves: vec![c.searchmove.clone()], ..GoSpec::default() };
     let out = run_search(&mut s, &c.fen, &c.history, &spec)?;
     s.quit()?;
@@ -433,6 +458,10 @@ pub fn check_engine_rep(c: &RepCase, ctx: &mut Ctx) -> Result<(), String> {
 pub struct FiftyCase {
     pub fen: String,
     pub depth: u32,
+    /// the same placement is searched first with this half-move clock on the same instance (what an engine
+    /// remembers about a placement must not carry the fifty-move verdict over to another clock)
+    #[serde(default)]
+    pub warm_clock: Option<u64>,
 }
 
 fn fifty_case(r: &gen::RawPos, h: u32, d: u32) -> FiftyCase {
@@ -440,7 +469,12 @@ fn fifty_case(r: &gen::RawPos, h: u32, d: u32) -> FiftyCase {
     p.ep = None;
     p.half = h as u64;
     p.full = p.full.max(h as u64 / 2 + 1);
-    FiftyCase { fen: p.fen(), depth: d }
+    let warm_clock = match (h / 3 + d) % 4 {
+        0 => Some(96 + (h as u64 % 4)),
+        1 => Some(100 + (h as u64 % 20)),
+        _ => None,
+    };
+    FiftyCase { fen: p.fen(), depth: d, warm_clock }
 }
 
 pub fn check_fifty(c: &FiftyCase, ctx: &mut Ctx) -> Result<(), String> {
@@ -450,6 +484,13 @@ pub fn check_fifty(c: &FiftyCase, ctx: &mut Ctx) -> Result<(), String> {
         return Ok(());
     }
     let mut s = Session::new();
+    if let Some(w) = c.warm_clock {
+        let mut q = p.clone();
+        q.half = w;
+        q.full = q.full.max(w / 2 + 1);
+        run_search(&mut s, &q.fen(), &[], &GoSpec::depth(1 + (w % 3)))?;
+        ctx.class("same_placement_searched_with_clock_near_100_before");
+    }
     let out = run_search(&mut s, &c.fen, &[], &GoSpec::depth(c.depth as u64))?;
     s.quit()?;
     let info = out.last_scored().ok_or_else(|| format!("no scored info for {c:?}"))?;
@@ -462,7 +503,7 @@ pub fn check_fifty(c: &FiftyCase, ctx: &mut Ctx) -> Result<(), String> {
         let (v, _) = refsearch::root_value(&mut b, c.depth);
         let want = refsearch::score_text(v, &b);
         if got != want {
-            return Err(format!("{} depth {}: engine score {got}, but with only {} plies since the last capture or pawn move no position in the tree is a fifty-move draw and the value is {want}", c.fen, c.depth, p.half + c.depth as u64));
+            return Err(format!("{} depth {}{}: engine score {got}, but with only {} plies since the last capture or pawn move no position in the tree is a fifty-move draw and the value is {want}", c.fen, c.depth, c.warm_clock.map_or(String::new(), |w| format!(" (after a search of the same placement with half-move clock {w} on the same instance)")), p.half + c.depth as u64));
         }
         ctx.class(if p.half >= 50 { "clock_50_to_99_ordinary_value" } else { "clock_below_50" });
         if p.half >= 50 - c.depth as u64 && v != 0 {
@@ -618,4 +659,37 @@ pub fn check_forced(c: &ForcedCase, ctx: &mut Ctx) -> Result<(), String> {
 
 pub fn shuffle_quad_pub(p: &Pos, skip: u16) -> Option<[Mv; 4]> {
     shuffle_quad(p, skip)
+}
+
+// ------------------------------------------------------------------------------------------------
+// (f) repetitions at every ply of deeper searches: exact values with the transposition cache disabled (hook)
+
+fn deep_rep_case(r: &gen::RawPos, depth: u32, x: u16) -> crate::props::c08::DeepCase {
+    // perpetual-check skeletons (a forced cycle exists), else any position with a take-back shuffle
+    let mut base: Option<(Pos, [Mv; 4])> = None;
+    if let gen::RawPos::Synth(rs) = r {
+        if let Some(q) = perpetual_template(rs) {
+            if let Some(c) = forced_cycle(&q) {
+                base = Some((q, c));
+            }
+        }
+    }
+    if base.is_none() {
+        let mut p = gen::position(r, ClockDomain::EngineQuiet);
+        p.ep = None;
+        p.half = p.half.min(30);
+        if let Some(c) = forced_cycle(&p) {
+            base = Some((p, c));
+        } else if let Some(c) = shuffle_quad(&p, x / 7) {
+            base = Some((p, c));
+        } else {
+            return crate::props::c08::DeepCase { fen: p.fen(), history: vec![], depth: depth.min(5) };
+        }
+    }
+    let (p, cyc) = base.unwrap();
+    // how much of the cycle has already been played: 0 plies (the root is a first occurrence; only the line itself
+    // can repeat), a partial cycle, one whole cycle (the root is a second occurrence), one and a half, two cycles
+    let plies = [0usize, 1, 2, 3, 4, 5, 6, 7, 8][(x % 9) as usize];
+    let history: Vec<String> = (0..plies).map(|i| cyc[i % 4].uci()).collect();
+    crate::props::c08::DeepCase { fen: p.fen(), history, depth }
 }
